@@ -22,7 +22,8 @@ CONFIGS = {
     '+child1': ['--trx', 'TRX1@127.0.0.1:5700/1'],
     '+child2': ['--trx', 'TRX1@127.0.0.1:5700/1', '--trx', 'TRX2@127.0.0.1:5700/2'],
     '+parent+child': ['--trx', 'X@127.0.0.1:7700', '--trx', 'X1@127.0.0.1:7700/1'],
-    '+ms-child': ['--trx', 'M1@127.0.0.1:6700/1'],          # the MS transceiver does not manage its children (child_mgt = False)
+    '+ms-child': ['--trx', 'M1@127.0.0.1:6700/1'],
+    '+child1+addresses': ['-b', '127.0.0.2', '-R', '127.0.0.3', '-r', '127.0.0.4', '--trx', 'TRX1@127.0.0.3:5700/1'],     # bind and remote addresses all different          # the MS transceiver does not manage its children (child_mgt = False)
 }
 VERBS = ['POWERON', 'POWEROFF', 'RXTUNE', 'TXTUNE', 'SETFH']
 
@@ -30,7 +31,7 @@ VERBS = ['POWERON', 'POWEROFF', 'RXTUNE', 'TXTUNE', 'SETFH']
 def jobs(tier, seed):
     out = []
     for cfg, argv in CONFIGS.items():
-        n = 2 + len(argv) // 2
+        n = 2 + sum(1 for a in argv if a == '--trx')
         out.append(('init.%s' % cfg, 'h_init', dict(cfg=cfg)))
         for tgt in range(n):
             for verb in VERBS:
@@ -85,12 +86,18 @@ def h_init(ctx, cfg):
         with ctx.no_raise('init:no-exception'):
             app, net, log = mk_app(ctx, T, cfg)
         tl = app.trx_list.trx_list
-        ctx.check('count', len(tl) == 2 + len(CONFIGS[cfg]) // 2)
+        ctx.check('count', len(tl) == 2 + sum(1 for a in CONFIGS[cfg] if a == '--trx'))
+        opt = dict(zip(CONFIGS[cfg][0::2], CONFIGS[cfg][1::2]))
+        bind = opt.get('-b', '0.0.0.0'); bts = opt.get('-R', '127.0.0.1'); bb = opt.get('-r', '127.0.0.1')
         for t in tl:
             ctx.check('%s:idle' % t.name, t.running is False and t.fh is None and t._tx_queue == [])
             ctx.check('%s:ports' % t.name, t.data_if.sock.bound[1] == t.base_port + 2 * t.child_idx + 2 and t.ctrl_if.sock.bound[1] == t.base_port + 2 * t.child_idx + 1
                       and t.data_if.remote_port == t.base_port + 2 * t.child_idx + 102 and t.ctrl_if.remote_port == t.base_port + 2 * t.child_idx + 101)
             ctx.check('%s:clock-only-for-parents' % t.name, (t.clck_gen is not None) == (t.child_idx == 0))
+            peer = bb if t.name == 'MS' or t.name.startswith('M1') else (bts if t.base_port == 5700 else t.remote_addr)
+            for link in (t.ctrl_if, t.data_if) + ((t.clck_if,) if t.child_idx == 0 else ()):
+                ctx.check('%s:listens-on-the-bind-address' % t.name, link.sock.bound[0] == bind, got=link.sock.bound[0], want=bind)
+                ctx.check('%s:talks-to-its-peer-address' % t.name, link.remote_addr == peer, got=link.remote_addr, want=peer)
             if t.child_idx > 0:
                 par = app.trx_list.find_trx(t.remote_addr, t.base_port)
                 ctx.check('%s:registered-with-parent' % t.name, par is not None and any(c is t for c in par.child_trx_list.trx_list))
